@@ -57,6 +57,7 @@ def jMErr : C11.MergeErr → Json
   | .zeroDim n => Json.mkObj [("kind", "zeroDim"), ("name", n)]
   | .emptyMax n => Json.mkObj [("kind", "emptyMax"), ("name", n)]
   | .shape n => Json.mkObj [("kind", "shape"), ("name", n)]
+  | .ragged n => Json.mkObj [("kind", "ragged"), ("name", n)]
 
 def asMEntry (j : Json) : R (C11.Path × C11.File) := do
   let d ← getStr j "dir"; let n ← getStr j "name"; let f ← fld j "file" >>= asMFile
